@@ -88,6 +88,7 @@ class TolerantLock:
 
 HANDLE_MODES = ("fresh", "one", "two")
 ENTRY_MODES = ("store", "importer")
+IMPORTER_MODES = ("one", "many")
 ENTRY_VIAS = ("string", "file")
 ENTRY_FMTS = ("graphml", "json")
 
@@ -165,11 +166,27 @@ class Backend:
                 merge_nodes / find_matching_nodes as the other graph) is a function of (hseed, k) only, so a prefix of a
                 history replays the same choices; the object clone_graph returns becomes the second handle of the new id."""
 
-    def __init__(self, flavour, tolerant_lock=True, handles="fresh", hseed=0, entry="store", plan=None):
+    def __init__(self, flavour, tolerant_lock=True, handles="fresh", hseed=0, entry="store", plan=None, importers="one", iplan=None,
+                 first_logger=None):
         assert flavour in ("shared", "disjoint")
         assert handles in HANDLE_MODES
         assert entry in ENTRY_MODES
+        assert importers in IMPORTER_MODES
         self.flavour = flavour
+        # which IMPORTER object serves a request (the models know no importer: the store is one per process, an importer
+        # is a way to reach it):
+        #   "one"  - one importer object, made with the defaults, for the whole history;
+        #   "many" - up to three importer objects of the process, made at different moments of the history and with
+        #            different constructor arguments (with / without a logger of their own); which one serves request
+        #            number k - and whether it is made just then - is a function of (hseed, k) only.  A kept handle
+        #            object keeps the importer it was made with, so handles of several importers work side by side.
+        #            `iplan` {str(k): "new-logger" | "new-default" | "old<i>"} says it instead (a request it does not list is
+        #            served by the importer of the request before); `first_logger` says how the first importer is made.
+        self.importers = importers
+        self.iplan = None if iplan is None else dict(iplan)
+        self.first_logger = first_logger
+        self._imps = []
+        self.imp_log = []       # [(request number, "new-logger" | "new-default" | "old<i>")] (mode "many")
         self.handles, self.hseed = handles, hseed
         # which entry point serves an import request (`add_graph` / `add_graph_direct`):
         #   "store"    - the store's add_graph / add_graph_direct, handed an nx.Graph (the only thing the models know);
@@ -190,17 +207,21 @@ class Backend:
         if flavour == "shared":
             from fim.graph.networkx_property_graph import NetworkXGraphImporter, NetworkXPropertyGraph, NetworkXGraphStorage
             NetworkXGraphStorage.storage_instance = None
-            self.importer = NetworkXGraphImporter()
+            self._shell, self._imp_cls = NetworkXGraphStorage, NetworkXGraphImporter
             self.cls = NetworkXPropertyGraph
         else:
             from fim.graph.networkx_property_graph_disjoint import NetworkXGraphImporterDisjoint, NetworkXPropertyGraphDisjoint, \
                 NetworkXGraphStorageDisjoint
             NetworkXGraphStorageDisjoint.storage_instance = None
-            self.importer = NetworkXGraphImporterDisjoint()
+            self._shell, self._imp_cls = NetworkXGraphStorageDisjoint, NetworkXGraphImporterDisjoint
             self.cls = NetworkXPropertyGraphDisjoint
-        self.storage = self.importer.storage.storage_instance
-        if tolerant_lock:
-            self.storage.lock = TolerantLock()
+        self.tolerant_lock = tolerant_lock
+        self._locked = None
+        import random
+        if first_logger is None:
+            first_logger = importers == "many" and random.Random(hseed * 15485863 + 3).random() < 0.4
+        self.importer = self.new_importer(bool(first_logger))
+        self.storage    # installs the tolerant lock
         self.import_keys = None     # optional callable n -> list of node keys for the next import
         # id-less imports (entry "importer" only): the probability that an `add_graph` request whose target id holds no nodes
         # is served by import_graph_from_string / import_graph_from_file called WITHOUT graph_id - the library then has to
@@ -208,6 +229,53 @@ class Backend:
         # the model stay `add_graph g` with g not in use (ImportEntry.Fresh).  via is then "string-idless" / "file-idless"
         # (also accepted in `plan`; honoured only while the target holds no nodes).  0 = never (what C05 runs).
         self.idless = 0.0
+
+    @property
+    def storage(self):
+        """the store object of the process AS IT IS NOW (the class-level instance every importer's shell delegates to) - not
+        a reference taken when the Backend was made: whatever replaces that object mid-history is seen by every observer"""
+        st = self._shell.storage_instance
+        if self.tolerant_lock and st is not None and st is not self._locked:
+            st.lock = TolerantLock()
+            self._locked = st
+        return st
+
+    def new_importer(self, with_logger):
+        """one more importer object of the process; `with_logger`: given a logger of its own (silent), else the defaults"""
+        if with_logger:
+            import logging
+            lg = logging.getLogger("verif-importer-%d" % len(self._imps))
+            lg.propagate = False
+            if not lg.handlers:
+                lg.addHandler(logging.NullHandler())
+            imp = self._imp_cls(logger=lg)
+        else:
+            imp = self._imp_cls()
+        self._imps.append(imp)
+        return imp
+
+    def turn(self):
+        """mode "many": pick (or make) the importer object serving request number self.calls"""
+        import random
+        r = random.Random(self.hseed * 32452843 + self.calls * 17 + 11)
+        if self.iplan is not None:
+            what = self.iplan.get(str(self.calls))
+            if what is None:
+                return
+            if what.startswith("old"):
+                self.importer = self._imps[int(what[3:]) % len(self._imps)]
+            else:
+                self.importer = self.new_importer(what == "new-logger")
+            self.imp_log.append((self.calls, what))
+            return
+        if len(self._imps) < 3 and r.random() < 0.25:
+            lg = r.random() < 0.5
+            self.importer = self.new_importer(lg)
+            self.imp_log.append((self.calls, "new-logger" if lg else "new-default"))
+        else:
+            i = r.randrange(len(self._imps))
+            self.importer = self._imps[i]
+            self.imp_log.append((self.calls, "old%d" % i))
 
     def fresh(self, g):
         return self.cls(graph_id=g, importer=self.importer)
@@ -247,6 +315,8 @@ class Backend:
     # -- one request ------------------------------------------------------------------
     def apply(self, req):
         self.last_import = None
+        if self.importers == "many":
+            self.turn()
         try:
             return ["ok", self._do(req)]
         except Exception as e:  # noqa
